@@ -39,14 +39,32 @@ func (e *enumOps) marshal(v uint64) (string, string, error) {
 	return string(b), str, err
 }
 
+// unmarshal parses text into destinations holding different previous values: the result of parsing
+// must not depend on what the variable held before.
 func (e *enumOps) unmarshal(text string) (uint64, error) {
-	ptr := reflect.New(e.reg.Type)
-	tu, ok := ptr.Interface().(encoding.TextUnmarshaler)
-	if !ok {
-		return 0, fmt.Errorf("type *%s does not implement encoding.TextUnmarshaler", e.reg.Type)
+	var first uint64
+	var firstErr error
+	for k, prev := range []uint64{0, ^uint64(0), 0x21, 1 << 40} {
+		ptr := reflect.New(e.reg.Type)
+		ptr.Elem().SetUint(prev)
+		tu, ok := ptr.Interface().(encoding.TextUnmarshaler)
+		if !ok {
+			return 0, fmt.Errorf("type *%s does not implement encoding.TextUnmarshaler", e.reg.Type)
+		}
+		err := tu.UnmarshalText([]byte(text))
+		got := ptr.Elem().Uint()
+		if k == 0 {
+			first, firstErr = got, err
+			continue
+		}
+		if (err == nil) != (firstErr == nil) {
+			return got, fmt.Errorf("UnmarshalText(%q) fails or succeeds depending on the previous value of the destination (%#x)", text, prev)
+		}
+		if err == nil && got != first {
+			return got, fmt.Errorf("UnmarshalText(%q) gives %#x into a zero variable but %#x into a variable that held %#x", text, first, got, prev)
+		}
 	}
-	err := tu.UnmarshalText([]byte(text))
-	return ptr.Elem().Uint(), err
+	return first, firstErr
 }
 
 func allEnums(t testing.TB) []*enumOps {
@@ -279,6 +297,8 @@ func TestC19Enumerated(t *testing.T) {
 			}
 			if v, err := e.unmarshal(r); err == nil {
 				fail(fmt.Errorf("UnmarshalText(%q) accepted (value %d): neither a known name, a combination of names nor a number", r, v))
+			} else if strings.Contains(err.Error(), "depending on the previous value") {
+				fail(err)
 			}
 			rec.Case(true, evid.HashS(e.reg.Type.String(), "reject", r), "rejected-text")
 		}
